@@ -369,9 +369,11 @@ func cmdCheck(args []string) int {
 	} else {
 		os.MkdirAll(dir, 0o755)
 	}
-	timeoutS, all := 30, false
+	// generous limits: the slowest obligations take about 7 s on an idle machine; under load (16 checks in a row, or the
+	// selftest corpus in parallel) they must not turn into timeouts, which would be false alarms
+	timeoutS, all := 90, false
 	if *tier == "thorough" {
-		timeoutS, all = 60, true
+		timeoutS, all = 120, true
 	}
 	rc := 0
 	for _, id := range ids {
